@@ -1,28 +1,11 @@
-(** Storage/Prim.v — abstract primitives (pdf::primitive::Primitive), their canonical text form
-    (harness/src/util.rs::canon) and the concrete serialiser (primitive.rs: Primitive::serialize).
-    No proofs in this file. *)
+(** Storage/Prim.v — the object model of the storage area IS the shared one (PdfV.Syn.Prim.prim: the
+    constructors of pdf::primitive::Primitive, streams [PStreamData] = StreamInner::Pending and
+    [PStream] = StreamInner::InFile; a real is carried as the decimal text the serialiser prints / the
+    lexer hands to str::parse::<f32>).  This file adds the dictionary helpers in the argument order of the
+    storage model, the canonical text form of the harness protocol (harness/src/util.rs::canon, reals as
+    f32 bit patterns) and the lexical helpers of the reload glue.  No proofs in this file. *)
 From PdfV Require Import Base.Prelude.
-
-(** primitive.rs: enum StreamInner { InFile { id, file_range }, Pending { data } } *)
-Inductive sinner :=
-| SPending (data : bytes)
-| SInFile (lo hi : N).        (* absolute byte range in the backend *)
-
-(** primitive.rs: enum Primitive; Dictionary = IndexMap<Name, Primitive> as an association list
-    (insertion order, unique keys); Number carries the f32 bit pattern *)
-Inductive prim :=
-| PNull
-| PInt (z : Z)
-| PReal (bits : N)
-| PBool (b : bool)
-| PStr (s : bytes)
-| PStream (d : list (bytes * prim)) (inner : sinner)
-| PDict (d : list (bytes * prim))
-| PArr (l : list prim)
-| PRef (id gen : N)
-| PName (s : bytes).
-
-Definition dict := list (bytes * prim).
+From PdfV Require Export Syn.Prim.
 
 Fixpoint beq_bytes (a b : bytes) : bool :=
   match a, b with
@@ -65,8 +48,58 @@ Fixpoint hex_fixed (w : nat) (n : N) : bytes :=
 Definition read_range (bk : bytes) (lo hi : N) : option bytes :=
   if (lo <=? hi) && (hi <=? lenN bk) then Some (take (hi - lo) (drop lo bk)) else None.
 
-Definition raw_data (bk : bytes) (i : sinner) : option bytes :=
-  match i with SPending d => Some d | SInFile lo hi => read_range bk lo hi end.
+(** PdfStream::raw_data without filters: the bytes of a stream value ([bk] = the backend for in-file streams) *)
+Definition raw_data (bk : bytes) (p : prim) : option bytes :=
+  match p with
+  | PStreamData _ data => Some data
+  | PStream _ _ _ st ln => read_range bk st (st + ln)
+  | _ => None
+  end.
+
+(** the f32 denoted by a decimal text (sign? digits ('.' digits)?) — str::parse::<f32> on the executable
+    domain (exactly representable values, see [f32_of_dec] below); [None] outside *)
+Fixpoint span_dig (s : bytes) : bytes * bytes :=
+  match s with
+  | c :: t => if (48 <=? c) && (c <=? 57) then let '(a, r) := span_dig t in (c :: a, r) else ([], s)
+  | [] => ([], [])
+  end.
+
+(** str::parse::<f32> for decimals that are exactly representable (execution only) *)
+Definition f32_of_dec (neg : bool) (mant : N) (scale : N) : option N :=
+  let p5 := 5 ^ scale in
+  if negb (mant mod p5 =? 0) then None
+  else
+    let q := mant / p5 in
+    if q =? 0 then Some (if neg then 2147483648 else 0)
+    else
+      let L := N.log2 q in
+      if 23 <? L then None
+      else
+        let M := q * 2 ^ (23 - L) in
+        let E := 127 + L in
+        if E <=? scale then None
+        else
+          let E' := E - scale in
+          if 254 <? E' then None
+          else Some ((if neg then 2147483648 else 0) + E' * 8388608 + (M - 8388608)).
+
+Definition bits_of_text (w : bytes) : option N :=
+  let '(neg, w1) := match w with c :: t => if c =? 45 then (true, t) else if c =? 43 then (false, t) else (false, w) | [] => (false, w) end in
+  let '(ip, r) := span_dig w1 in
+  match r with
+  | [] => match ip with [] => None | _ => f32_of_dec neg (N_of_dec ip) 0 end
+  | c :: r1 =>
+    if c =? 46 then
+      let '(fp, r2) := span_dig r1 in
+      match r2, ip ++ fp with
+      | [], _ :: _ => f32_of_dec neg (N_of_dec (ip ++ fp)) (lenN fp)
+      | _, _ => None
+      end
+    else None
+  end.
+
+Definition canon_real (w : bytes) : bytes :=
+  114 :: match bits_of_text w with Some b => hex_fixed 8 b | None => [33] ++ w ++ [59] end.
 
 Fixpoint canon (bk : bytes) (p : prim) {struct p} : bytes :=
   let cdict := fix go (d : list (bytes * prim)) (first : bool) : bytes :=
@@ -74,21 +107,62 @@ Fixpoint canon (bk : bytes) (p : prim) {struct p} : bytes :=
     | [] => []
     | (k, v) :: t => (if first then [] else [32]) ++ hexs k ++ [58] ++ canon bk v ++ go t false
     end in
+  let cdata (o : option bytes) : bytes :=
+    match o with Some x => hexs x | None => [33; 79; 116; 104; 101; 114] (* !Other *) end ++ [59] in
   match p with
   | PNull => [110]
   | PBool true => [116]
   | PBool false => [102]
   | PInt z => 105 :: dec_of_Z z
-  | PReal b => 114 :: hex_fixed 8 b
+  | PReal w => canon_real w
+  | PNum e _ => canon_real e
   | PName s => [78] ++ hexs s ++ [59]
   | PStr s => [83] ++ hexs s ++ [59]
   | PRef i g => [82] ++ dec_of_N i ++ [44] ++ dec_of_N g
   | PArr l => [91] ++ (fix go (l : list prim) (first : bool) : bytes :=
                  match l with [] => [] | x :: t => (if first then [] else [32]) ++ canon bk x ++ go t false end) l true ++ [93]
   | PDict d => [123] ++ cdict d true ++ [125]
-  | PStream d i => [115; 123] ++ cdict d true ++ [125] ++
-                   match raw_data bk i with Some x => hexs x | None => [33; 79; 116; 104; 101; 114] (* !Other *) end ++ [59]
+  | PStream d _ _ st ln => [115; 123] ++ cdict d true ++ [125] ++ cdata (read_range bk st (st + ln))
+  | PStreamData d x => [115; 123] ++ cdict d true ++ [125] ++ cdata (Some x)
   end.
+
+(* ------------------------------------------------------------------------------------------ *)
+(** f32 formatting ({} of f32) for values whose exact decimal expansion is the shortest one
+    (integral values and small dyadic fractions); execution only — in theorems the serialiser is
+    a Section function. *)
+Definition fmt_f32 (bits : N) : bytes :=
+  let sign := bits / 2147483648 in
+  let e := (bits / 8388608) mod 256 in
+  let m := bits mod 8388608 in
+  let sg := if sign =? 0 then [] else [45] in
+  if (e =? 0) && (m =? 0) then sg ++ [48]
+  else
+    let M := 8388608 + m in
+    if 150 <=? e then sg ++ dec_of_N (M * 2 ^ (e - 150))
+    else
+      let sh := 150 - e in
+      let ip := M / 2 ^ sh in
+      let fr := M mod 2 ^ sh in
+      if fr =? 0 then sg ++ dec_of_N ip
+      else
+        (* fr / 2^sh = fr * 5^sh / 10^sh : exactly sh fractional digits, trailing zeros stripped *)
+        let digs := dec_of_N (fr * 5 ^ sh) in
+        let padded := repeatN 48 (N.to_nat sh - length digs) ++ digs in
+        let stripped := rev ((fix strip (l : bytes) : bytes :=
+                                match l with c :: t => if c =? 48 then strip t else l | [] => [] end) (rev padded)) in
+        sg ++ dec_of_N ip ++ [46] ++ stripped.
+
+(** uncanon of `r<bits>`: Primitive::Number(f32::from_bits(bits)) — carried as the text Primitive::serialize
+    prints for it ([ser_num] of the exact expansion; on the executable domain the exact expansion is also what
+    `{}` prints) *)
+Definition real_text (bits : N) : bytes :=
+  let t := fmt_f32 bits in
+  let neg := match t with c :: _ => c =? 45 | [] => false end in
+  let body := if neg then tl t else t in
+  if existsb (fun b => b =? 46) t then t
+  else if N_of_dec body <? 2147483648 then (if neg && negb (N_of_dec body =? 0) then t else body)
+  else t ++ [46].
+Definition real_of_bits (bits : N) : prim := PReal (real_text bits).
 
 (* ------------------------------------------------------------------------------------------ *)
 (** canonical text -> prim (harness/src/modes/storage.rs: uncanon) *)
@@ -158,7 +232,7 @@ Fixpoint cval (fuel : nat) (s : bytes) {struct fuel} : option (prim * bytes) :=
       else if c =? 114 then
         let h := firstn 8 t in
         if (length h =? 8)%nat && forallb is_hex h then
-          Some (PReal (fold_left (fun a x => a * 16 + hexv x) h 0), skipn 8 t) else None
+          Some (real_of_bits (fold_left (fun a x => a * 16 + hexv x) h 0), skipn 8 t) else None
       else if c =? 78 then let '(b, r) := unhex t [] in match eat 59 r with Some r1 => Some (PName b, r1) | None => None end
       else if c =? 83 then let '(b, r) := unhex t [] in match eat 59 r with Some r1 => Some (PStr b, r1) | None => None end
       else if c =? 82 then
@@ -190,7 +264,7 @@ Fixpoint cval (fuel : nat) (s : bytes) {struct fuel} : option (prim * bytes) :=
         | Some t1 =>
           match cdict fuel t1 [] with
           | Some (d, r) => let '(data, r1) := unhex r [] in
-                           match eat 59 r1 with Some r2 => Some (PStream d (SPending data), r2) | None => None end
+                           match eat 59 r1 with Some r2 => Some (PStreamData d data, r2) | None => None end
           | None => None
           end
         end
@@ -239,96 +313,3 @@ Definition next_word (c : cur) : bytes * cur :=
 
 Definition all_digits (w : bytes) : bool := match w with [] => false | _ => forallb is_digit w end.
 
-(* ------------------------------------------------------------------------------------------ *)
-(** f32 formatting ({} of f32) for values whose exact decimal expansion is the shortest one
-    (integral values and small dyadic fractions); execution only — in theorems the serialiser is
-    a Section function. *)
-Definition fmt_f32 (bits : N) : bytes :=
-  let sign := bits / 2147483648 in
-  let e := (bits / 8388608) mod 256 in
-  let m := bits mod 8388608 in
-  let sg := if sign =? 0 then [] else [45] in
-  if (e =? 0) && (m =? 0) then sg ++ [48]
-  else
-    let M := 8388608 + m in
-    if 150 <=? e then sg ++ dec_of_N (M * 2 ^ (e - 150))
-    else
-      let sh := 150 - e in
-      let ip := M / 2 ^ sh in
-      let fr := M mod 2 ^ sh in
-      if fr =? 0 then sg ++ dec_of_N ip
-      else
-        (* fr / 2^sh = fr * 5^sh / 10^sh : exactly sh fractional digits, trailing zeros stripped *)
-        let digs := dec_of_N (fr * 5 ^ sh) in
-        let padded := repeatN 48 (N.to_nat sh - length digs) ++ digs in
-        let stripped := rev ((fix strip (l : bytes) : bytes :=
-                                match l with c :: t => if c =? 48 then strip t else l | [] => [] end) (rev padded)) in
-        sg ++ dec_of_N ip ++ [46] ++ stripped.
-
-(** str::parse::<f32> for decimals that are exactly representable (execution only) *)
-Definition f32_of_dec (neg : bool) (mant : N) (scale : N) : option N :=
-  let p5 := 5 ^ scale in
-  if negb (mant mod p5 =? 0) then None
-  else
-    let q := mant / p5 in
-    if q =? 0 then Some (if neg then 2147483648 else 0)
-    else
-      let L := N.log2 q in
-      if 23 <? L then None
-      else
-        let M := q * 2 ^ (23 - L) in
-        let E := 127 + L in
-        if E <=? scale then None
-        else
-          let E' := E - scale in
-          if 254 <? E' then None
-          else Some ((if neg then 2147483648 else 0) + E' * 8388608 + (M - 8388608)).
-
-(* ------------------------------------------------------------------------------------------ *)
-(** primitive.rs: Primitive::serialize, serialize_list, serialize_name, Dictionary::serialize,
-    PdfStream::serialize, PdfString::serialize.   Err 9 = PdfError::Other (unimplemented!() on an
-    in-file stream); Panic 106 = serialize_name's panic!("only ASCII"). *)
-
-Definition esc_bytes (s : bytes) : bytes :=
-  flat_map (fun b => if (b =? 92) || (b =? 40) || (b =? 41) then [92; b] else [b]) s.
-
-(** primitive.rs: PdfString::serialize *)
-Definition ser_string (s : bytes) : bytes :=
-  if existsb (fun b => 128 <=? b) s then [60] ++ hexs s ++ [62]
-  else [40] ++ esc_bytes s ++ [41].
-
-(** primitive.rs: serialize_name *)
-Definition ser_name (s : bytes) : res bytes :=
-  if existsb (fun b => 126 <? b) s then Panic 106 else Ok (47 :: esc_bytes s).
-
-Fixpoint ser_prim (p : prim) {struct p} : res bytes :=
-  let sdict := fix go (d : list (bytes * prim)) : res bytes :=
-    match d with
-    | [] => Ok []
-    | (k, v) :: t => do sv <- ser_prim v; do st <- go t; Ok ([47] ++ k ++ [32] ++ sv ++ [10] ++ st)
-    end in
-  match p with
-  | PNull => Ok [110; 117; 108; 108]
-  | PInt z => Ok (dec_of_Z z)
-  | PReal b => Ok (fmt_f32 b)
-  | PBool true => Ok [116; 114; 117; 101]
-  | PBool false => Ok [102; 97; 108; 115; 101]
-  | PStr s => Ok (ser_string s)
-  | PName s => ser_name s
-  | PRef i g => Ok (dec_of_N i ++ [32] ++ dec_of_N g ++ [32; 82])
-  | PArr l => do body <- (fix go (l : list prim) (first : bool) : res bytes :=
-                match l with
-                | [] => Ok []
-                | x :: t => do sx <- ser_prim x; do st <- go t false; Ok ((if first then [] else [32]) ++ sx ++ st)
-                end) l true;
-              Ok ([91] ++ body ++ [93])
-  | PDict d => do body <- sdict d; Ok ([60; 60; 10] ++ body ++ [62; 62; 10])
-  | PStream d i =>
-      do body <- sdict d;
-      match i with
-      | SInFile _ _ => Err 9
-      | SPending data =>
-          Ok ([60; 60; 10] ++ body ++ [62; 62; 10] ++ [115; 116; 114; 101; 97; 109; 10] ++ data ++
-              [10; 101; 110; 100; 115; 116; 114; 101; 97; 109; 10])
-      end
-  end.
